@@ -7,6 +7,12 @@
 //   MODE 2  TaskListT alone (emplace/remove), inductive.
 #define FFSM2_DISABLE_TYPEINDEX
 #define FFSM2_ENABLE_PLANS
+#ifndef SERIAL
+#define SERIAL 0     // 1: histories may save()/load() the machine (load clears the plan data without unlinking task by task)
+#endif
+#if SERIAL
+#define FFSM2_ENABLE_SERIALIZATION
+#endif
 #include "vrt.h"
 #include <ffsm2/machine.hpp>
 #ifndef CAP
@@ -169,6 +175,9 @@ static void one_operation(bool inductive) {
   else if (op == 3 && !inductive) { g->update(); }           // consumption / outcome clearing are exercised by the plan harness (C08/C09)
 #if MANUAL
   else if (op == 4 && !inductive) { g->exit(); g->enter(); mn = 0; }     // deactivation clears the plan; the slots must all be reusable afterwards
+#endif
+#if SERIAL
+  else if (op == 5 && !inductive) { Inst::SerialBuffer b; { const Inst* cg = g; cg->save(b); } g->load(b); mn = 0; }   // load() clears the plan
 #endif
   (void)inductive;
 }
